@@ -391,10 +391,11 @@ def check_C08(chk, tier):
     c08_e1(chk, tier)
     # E2 pipeline confirmation: ?gstrf with a caller workspace of every length (step 1 around the requirement), symbolic trailing column
     cs = []
-    shapes = [(3, 511, "t122"), (4, C.band(4, 1, 1), "t212")] if tier == "quick" else [(3, 511, "t122"), (3, 511, "t1nn_f1"), (4, C.band(4, 1, 1), "t212"), (5, C.dense(5, 5), "tn1n"), (6, C.band(6, 2, 2), "t122")]
-    for n_, pat, tn in shapes:
-        t = T[tn]; fillT = tuple(t[:5]) + (2,)
-        hi = 1400 if n_ <= 4 else 4000
+    shapes = [(3, 511, "t122", 2), (4, C.band(4, 1, 1), "t212", 2), (5, C.arrow(5, False), "t122", 1)] if tier == "quick" else [(3, 511, "t122", 2), (3, 511, "t1nn_f1", 2), (4, C.band(4, 1, 1), "t212", 2), (5, C.dense(5, 5), "tn1n", 2), (6, C.band(6, 2, 2), "t122", 2),
+              (5, C.arrow(5, False), "t122", 1), (6, C.arrow(6, False), "tn1n", 1), (8, C.arrow(8, False), "t4_1_8_2d", 1)]
+    for n_, pat, tn, fl in shapes:      # fill estimate 1 with a tip-first arrow: LUSUP, UCOL and LSUB all have to grow inside the caller's workspace
+        t = T[tn]; fillT = tuple(t[:5]) + (fl,)
+        hi = 1400 if n_ <= 4 else (2400 if fl == 1 and n_ <= 6 else 4000)
         for lw in list(range(1, hi, 1 if tier != "quick" else 3)) + list(range(hi, hi + 64, 7)):
             cs.append(fcase(n_, n_, pat, tune=fillT, symcols=1 << (n_ - 1), lwork=lw, woff=(lw // 5) % 2 * 4))
         for k in range(1, 40 if tier == "quick" else 80): cs.append(fcase(n_, n_, pat, tune=tuple(t[:5]) + (1,), symcols=1 << (n_ - 1), failat=k))
@@ -491,6 +492,17 @@ def storage_cases(tier, prec="d"):
     return list(dict.fromkeys(cs))
 
 
+def storage_sweep_cases(tier):
+    """caller workspace lengths on a fine grid around the point where the problem just fits (fill estimate 1, so the arrays grow inside the workspace): a length is
+    either reported insufficient (skipped here, C08's subject) or must give the same factors as the generous regime"""
+    cs = []; q = tier == "quick"
+    # arrow patterns with the tip first fill completely, so with fill estimate 1 LUSUP / UCOL / LSUB all grow inside the workspace
+    for n, pat, tn, lo, hi in ((5, C.arrow(5, False), "t122", 400, 2300), (6, C.arrow(6, False), "t122", 400, 2700), (6, C.arrow(6, False), "tn1n", 400, 2900), (8, C.arrow(8, False), "t4_1_8_2d", 400, 3900)) if q else \
+                              ((5, C.arrow(5, False), "t122", 400, 2600), (6, C.arrow(6, False), "t122", 400, 3000), (6, C.arrow(6, False), "tn1n", 400, 3200), (8, C.arrow(8, False), "t4_1_8_2d", 400, 4500), (10, C.arrow(10, False), "t2_4_4", 400, 6000), (9, C.band(9, 3, 3), "t122", 400, 6000)):
+        for lw in range(lo, hi, 12 if q else 4): cs.append(scase(n, pat, tune=tn, symcols=1 << (n - 1), fill2=1, lwork2=lw, woff2=(lw // 12) % 2 * 4, ilu=0))
+    return cs
+
+
 def check_C07(chk, tier):
     chk.assumptions += COMMON_ASSUME + ["layer T: the two runs' stored values are compared as operation DAGs (identical term => identical bits under any IEEE rounding); integer arrays compared exactly",
                                         "second regime: fill estimate 1 or 2 (in-flight expansions) or a caller workspace of several lengths and both alignments; workspaces too small for the problem are C08's subject and skipped here"]
@@ -498,6 +510,8 @@ def check_C07(chk, tier):
         run_phase(chk, "storage-regimes/" + prec, H + "h_storage.c", storage_cases(tier, prec), ["C07."], prec=prec, budget_s=200 if tier == "quick" else 1800, monitor_ids=("ws_viol",),
                   bounds="n<=3 symbolic, n<=10 with symbolic trailing columns; complete and incomplete LU; fill estimate 1/2 vs generous; caller workspace lengths {700..20000} x alignment {0,4}",
                   qtimeout_ms=(3000 if prec in "zc" else 8000) if tier == "quick" else 60000, env=CPLX_ENV if prec in "zc" else None, validate_samples=0)
+    run_phase(chk, "storage-regimes/workspace-length sweep/d", H + "h_storage.c", storage_sweep_cases(tier), ["C07."], prec="d", budget_s=120 if tier == "quick" else 1800, monitor_ids=("ws_viol",), validate_samples=0,
+              bounds="n = 5..7 (10 thorough), fill estimate 1, caller workspace of every length on a 12-byte (4-byte thorough) grid across the fits / does-not-fit boundary, both alignments")
 
 
 # ------------------------------------------------------------------------------------------------ C20 Fortran bridge
@@ -577,6 +591,12 @@ def check_C09(chk, tier):
                 cs.append((n, hex(pat)) + tuple(T["t122" if n < 5 else "tn1n"]) + (sc, mode, bs))
         run_phase(chk, "determinism+store-monitor/" + prec, H + "h_determ.c", cs, ["C09."], prec=prec, budget_s=200 if q else 900, monitor_ids=("global_stores",), validate_samples=0,
                   bounds="?gssvx (equil+cond+refine+growth), ?gsisx (SMILU_2), ?gssv; n<=6 (10 thorough); repeat after an unrelated call with other options", qtimeout_ms=5000 if q else 30000, env=CPLX_ENV if prec in "zc" else None)
+    # history in a caller workspace: ?gstrf (square and tall) in a buffer that still holds another factorization's bookkeeping must give the factors of THIS matrix
+    hc = []
+    for m_, n_, pat in ((3, 3, 511), (4, 3, C.dense(4, 3)), (5, 3, C.dense(5, 3)), (5, 3, 0b110110111101101), (6, 4, C.dense(6, 4)), (6, 4, 0x3cf3cf), (4, 2, 0xf5), (7, 5, C.dense(7, 5))):
+        for tn in ("t122", "t212", "tn1n"): hc.append(fcase(m_, n_, pat, tune=tn, symcols=1 << (n_ - 1), flags=4, lwork=30000, woff=4 * (m_ % 2)))
+    run_phase(chk, "history in a caller workspace/gstrf", H + "h_factor.c", hc, ["C02.", "C03.", "C04.", "C08.workspace"], prec="d", budget_s=100, monitor_ids=("global_stores", "ws_viol"), validate_samples=0,
+              bounds="m x n <= 7x5 (square and tall), caller workspace reused right after an unrelated dense factorization; result judged by the factor identity / structure oracles")
     # monitor on driver harness paths as well
     xc = [xcase(2, 0b1101, hist=h, trans=t, symcols=2) for h, t in ((14, 12), (134, 121))] + [xcase(2, 15, symcols=0, equil=1, refine=1, cond=1, growth=1)]
     run_phase(chk, "store-monitor/gssvx", H + "h_gssvx.c", xc, ["C09."], prec="d", budget_s=120, monitor_ids=("global_stores",), validate_samples=0, bounds="expert-driver histories under the store monitor")
